@@ -84,6 +84,33 @@ T = {
  "C11c-2": ("C11", "dependency paths are not canonicalised", "a dependency written with `..` and the same source also reached by scan, input or another dependent"),
  "C17c-1": ("C17", "base directory stripped from paths as a string prefix", "a source outside the base in a sibling directory whose name extends the base's name, and a command reading TXTPP_FILE"),
  "C17c-2": ("C17", "shell option tokenised on single spaces", "an overridden shell string with two blanks, a tab or a trailing blank"),
+ # round d: the agent saw the list of earlier ideas for its property and was asked for something else
+ "C01d-1": ("C01", "std::path::absolute instead of canonicalize in make_abs", "an include spelled with `..` plus the same file under its canonical path, and the interleaving: first build of b done, depender released, second build of b truncates b, depender includes it"),
+ "C01d-2": ("C01", "inject_tags replaces in place, searching the partly substituted line", "two tags stored at once, both used on one line, the text stored under the left one contains the right one's name"),
+ "C02d-1": ("C02", "build mode creates the output lazily; an empty fresh output is created only if nothing exists", "a dependency whose fresh output is empty while an old non-empty output lies on disk"),
+ "C02d-2": ("C02", "done() calls sync_all on the inner file instead of flush", "a write fault (ENOSPC / EFBIG / EIO) that lands in the final buffered chunk: BufWriter's Drop swallows it"),
+ "C03d-1": ("C03", "directory scan classifies entries with DirEntry::file_type (symlinks are skipped)", "a .txtpp source or (with -r) a sub-directory present as a symbolic link whose target is reached no other way"),
+ "C03d-2": ("C03", "Shell::run reads stdout to the end, then stderr, then waits", "a command that writes more than a pipe buffer (64 KiB) to stderr while stdout is open"),
+ "C04d-1": ("C04", "Progress::begin_task counts after printing (with ?), is_done uses >=", "verbose output, a stderr on which writes fail, and a failing file whose result has not arrived at the next poll"),
+ "C04d-2": ("C04", "directory scan classifies entries with DirEntry::file_type (symlinks are skipped)", "a failing source present in the scanned directory only as a symbolic link"),
+ "C05d-1": ("C05", "process-wide cache of get_txtpp_file answers", "two runs in one process on one directory with the set of .txtpp files changing in between (a cached miss hides the edge that closes a cycle)"),
+ "C05d-2": ("C05", "after the first dependency the rest of the file is scanned line by line for dependencies", "a multi-line write/run/temp block below a genuine dependency that quotes `TXTPP#include X` with X the file itself or one of its dependers"),
+ "C06d-1": ("C06", "verify compares through a 4 KiB stack buffer and advances by the bytes asked for", "a stored output of more than 8 KiB with a compared piece straddling a multiple of 8192"),
+ "C06d-2": ("C06", "verify takes the line ending from the stored output instead of the source", "a source edit that flips the first line's ending after the build, or a \\r inserted before the only \\n of a one-line output"),
+ "C07d-1": ("C07", "clean refuses to remove temp files outside the base directory", "base directory below the project root and a temp target reached through ../"),
+ "C07d-2": ("C07", "clean propagates DeleteFile errors of temp directives", "a temp directive naming an existing directory, or two sources sharing a temp target cleaned by two workers at once"),
+ "C08d-1": ("C08", "one-line sources inherit the line ending of the existing output", "a source that is one unterminated line and a leftover output whose first line ends in CRLF"),
+ "C08d-2": ("C08", "whole-buffer writes staged in <name>.tmp (create_new) and renamed", "the process killed between creating the staging file and the rename: every later build fails with EEXIST"),
+ "C09d-1": ("C09", "--needed skips the comparison when the output is older than its source", "a source saved again without a change (newer mtime than its output), then a needed-build"),
+ "C09d-2": ("C09", "nothing is done for a temp file whose fresh content is empty", "a temp directive without content lines and a non-empty stale file at its target"),
+ "C10d-1": ("C10", "temp targets get missing parent directories created; clean prunes the directory", "a temp target in a directory other than the source's that does not exist (build) or becomes empty (clean)"),
+ "C10d-2": ("C10", "the temp guard only looks at the last extension", "a temp directive naming an existing source spelled NAME.txtpp.EXT"),
+ "C11d-1": ("C11", "with -r, input directories inside other input directories are pruned by string prefix", "recursion on and two named directories one of whose canonical paths is a string prefix of the other without being its ancestor (lib, lib2)"),
+ "C11d-2": ("C11", "remove_txtpp rebuilds NAME.txtpp.EXT outputs through to_string_lossy", "a source of the middle shape whose file name is not valid UTF-8"),
+ "C17d-1": ("C17", "run output decoded chunk by chunk (8 KiB) with from_utf8_lossy", "a command printing more than 8 KiB of multi-byte text with a character straddling a read boundary"),
+ "C17d-2": ("C17", "AbsPath::parent skips re-canonicalising and becomes its own base", "an includer below the base directory and an included source reached as a dependency before any scan finds it"),
+ "C18d-1": ("C18", "verify compares against BufReader::fill_buf in a loop that never advances at EOF", "verify of an output that gets shorter after it was opened, e.g. a temp directive aimed at the source's own output"),
+ "C18d-2": ("C18", "the line loop skips output-less lines by calling itself", "some thousand consecutive directive / continuation lines (stack overflow aborts the process)"),
 }
 
 def main():
